@@ -693,8 +693,11 @@ def _mk_fusion_var(rng, c, spec):
     return _mk_fusion(rng, c, spec, with_var=True)
 
 
-def _mk_circ(rng, c, spec, with_var=False):
-    c.ref = refgen.make_reference(rng, n_genes=1, min_exons=2, max_exons=5, exon_len=(12, 90))
+def _mk_circ(rng, c, spec, with_var=False, start_p=0.45, small_ref=False):
+    if small_ref:
+        c.ref = refgen.make_reference(rng, n_genes=1, coding_p=0.3, min_exons=1, max_exons=3, exon_len=(24, 70))
+    else:
+        c.ref = refgen.make_reference(rng, n_genes=1, min_exons=2, max_exons=5, exon_len=(12, 90))
     tx = c.ref.genes[0].txs[0]
     recs = []
     for _ in range(rng.randint(1, 2)):
@@ -712,6 +715,29 @@ def _mk_circ(rng, c, spec, with_var=False):
     if with_var:
         frags = [f for r in recs for f in r.frags]
         vs = {}
+        if rng.random() < start_p:
+            # a multi-base record (deletion or MNV) that begins on the base in front of a start codon of the circle and reaches into
+            # it; the codon in front of the ATG mostly reads K / R (planted before any record is made), so that the ORF's first node
+            # starts at the ATG: in a circular molecule the ORF opened there meets the record again one lap later
+            gs_ = c.ref.gene_seq(tx.gene)
+            atgs = [g for s_, e_ in frags for g in range(s_ + 3, e_ - 3) if gs_[g:g + 3] == 'ATG']
+            if atgs:
+                g = rng.choice(atgs)
+                tg = tx.gene2tx(g)
+                # never edit the genome inside (or next to) an annotated CDS: the reference must stay a consistent annotation
+                if rng.random() < 0.7 and not (tx.coding and tg is not None and tx.cds[0] - 3 <= tg <= tx.cds[1] + 6):
+                    for k_, b_ in enumerate(rng.choice(['AAG', 'AAA', 'AGA', 'CGT'])):
+                        c.ref.set_gene_base(tx.gene, g - 3 + k_, b_)
+                    gs_ = c.ref.gene_seq(tx.gene)
+                if rng.random() < 0.6:
+                    k = rng.choice([1, 2])
+                    v = Small(tx.gene, tx, g - 1, gs_[g - 1:g + k], gs_[g - 1])
+                else:
+                    alt = ''.join(rng.choice('ACGT') for _ in range(2))
+                    v = Small(tx.gene, tx, g - 1, gs_[g - 1:g + 1], alt) if alt != gs_[g - 1:g + 1] else None
+                if v is not None:
+                    vs[v.id] = v
+                    c.note['circ_start_codon_record'] = v.id
         for _ in range(rng.randint(1, 4)):
             s, e = rng.choice(frags)
             g = rng.randint(s, e - 1)
@@ -730,6 +756,13 @@ def _mk_circ(rng, c, spec, with_var=False):
 
 def _mk_circ_var(rng, c, spec):
     return _mk_circ(rng, c, spec, with_var=True)
+
+
+def _mk_circ_start(rng, c, spec):
+    """Short circles (1-3 exons of 24-70 nt, mostly non-coding hosts: an ORF often stays open for a whole lap) that always carry a
+    multi-base record reaching into one of their start codons from the base in front of it."""
+    ok = _mk_circ(rng, c, spec, with_var=True, start_p=1.0, small_ref=True)
+    return ok and 'circ_start_codon_record' in c.note
 
 
 def _mk_units(rng, c, spec):
